@@ -421,6 +421,41 @@ const PROBES: &[&str] = &[
     "\x1b[!p", "\x1b[4lz", "\x1b[20l\n", "\x1b[?7hwwwwwwwwwwww", "\x1bD", "\x1bE", "\x1b[S", "\x1b[T", "\x1b[?25h", "\x1b[?1l",
 ];
 
+/// The two known findings of C11, as the fixed histories listed in known_findings.json - run on
+/// every check so that each listed finding is demonstrated against the real code every time.
+fn ep_c11_known(s: &mut S) {
+    // C11-a: origin mode, cursor outside the scroll region, saved context disagrees with the modes
+    s.episode("C11");
+    let a = s.new_vt(5, 5, 0);
+    for t in ["\x1b[?6h", "\x1b7", "\x1b[3;4r", "\x1b8", "\x1b[?1047h"] {
+        s.feed_str(a, t, true);
+    }
+    if let Some(d) = s.dump(a) {
+        let b = s.new_vt(5, 5, 0);
+        s.feed_str(b, &d, true);
+        s.rel("ObsEq", &[a, b]);
+        for t in ["\x1b[1;1HX", "\x1b[?1047l", "\x1b[1;1HY"] {
+            s.feed_str(a, t, true);
+            s.feed_str(b, t, true);
+            s.rel("ObsEq", &[a, b]);
+        }
+    }
+    // C11-b: resize while the alternate screen is showing
+    s.episode("C11");
+    let a = s.new_vt(4, 3, 0);
+    s.feed_str(a, "abcdef\r\ngh", true);
+    s.feed_str(a, "\x1b[?1047h", true);
+    s.resize(a, 2, 3, true);
+    if let Some(d) = s.dump(a) {
+        let b = s.new_vt(2, 3, 0);
+        s.feed_str(b, &d, true);
+        s.rel("ObsEq", &[a, b]);
+        s.feed_str(a, "\x1b[?1047l", true);
+        s.feed_str(b, "\x1b[?1047l", true);
+        s.rel("ObsEq", &[a, b]);
+    }
+}
+
 fn ep_c11(s: &mut S, r: &mut Rng, maxc: usize, maxr: usize) {
     s.episode("C11");
     let (c, rr) = gen::size(r, maxc, maxr);
@@ -989,6 +1024,9 @@ pub fn run(args: &Args) -> i32 {
         s.out.flush().unwrap();
         println!("{{\"driver\":\"C20X\",\"seed\":{},\"episodes\":{},\"events\":{},\"panics\":{},\"chars\":{},\"distinct_nontrivial\":{}}}", seed, s.episodes, s.events, s.panics, s.chars_fed, s.distinct.len());
         return 0;
+    }
+    if drv == "C11" {
+        ep_c11_known(&mut s);
     }
     for _ in 0..episodes {
         match drv.as_str() {
